@@ -81,6 +81,23 @@ def _fixed_rounds_at_last_decimal(ctx, rep):
 
 
 def check(ctx, rep):
+    # the position of the point is taken from the digits actually produced: rounding can add a leading digit (9.96 -> 10.0), so the
+    # count of digits before the point is computed from the digit string made AFTER the last conversion
+    fx_ = ctx.fn('pcbasic/basic/values/numbers.py:Float.to_str_fixed')
+    convs = [c for c in own_nodes(fx_) if isinstance(c, ast.Call) and isinstance(c.func, ast.Attribute) and c.func.attr == 'to_decimal']
+    nb = [a for a in own_nodes(fx_) if isinstance(a, ast.Assign) and norm(a.targets[0]) == 'n_before']
+    ds = [a for a in own_nodes(fx_) if isinstance(a, ast.Assign) and norm(a.targets[0]) == 'digitstr' and 'mantissa' in norm(a.value)]
+    ok = len(nb) == 1 and len(ds) == 1 and 'len(digitstr)' in norm(nb[0].value) and 'n_after' in norm(nb[0].value) \
+        and all(c.lineno < ds[0].lineno for c in convs) and ds[0].lineno < nb[0].lineno
+    rep.ob('fixed.point-placed-after-rounding', 'to_str_fixed: digits before the point = len(digit string after the last conversion) - digits after it', ok,
+           'the count is fixed before the rounding step: when rounding carries into a new leading digit the point lands one place too far left (9.96 in ##.# as 1.00)', ctx.where(fx_))
+    # thousands: the leading partial group exists only if it is not empty
+    gt = ctx.fn('pcbasic/basic/values/numbers.py:Float._group_thousands')
+    flg = ctx.flow(gt)
+    lead = [n for n in own_nodes(gt) if isinstance(n, ast.List) and any(norm(e) == 'digitstr[:first]' for e in n.elts)]
+    rep.ob('commas.no-empty-leading-group', '_group_thousands adds the leading partial group only when it has digits',
+           len(lead) >= 1 and all(flg.knows(n, 'first', True) for n in lead),
+           'an empty first group is joined in: 123456 in ###,### comes out as ,123,456', ctx.where(gt))
     _fixed_rounds_at_last_decimal(ctx, rep)
     n = _reads_appended(ctx, rep, F + ':NumberField.__init__') + _reads_appended(ctx, rep, F + ':StringField.__init__')
     rep.floor('width.every-consumed-char-counted', n, 10, 'reads')
@@ -187,6 +204,8 @@ def variants(ctx):
         return lambda tree: f(mu.find_def(tree, f_name))
 
     return [
+        mu.Variant('leading-group-always-added', 'break', 'pcbasic/basic/values/numbers.py',
+                   lambda tree: _always_lead(mu.find_def(tree, 'Float._group_thousands')), expect='commas.no-empty-leading-group'),
         mu.Variant('fixed-notation-asks-for-zero-digits', 'break', 'pcbasic/basic/values/numbers.py',
                    lambda tree: mu.replace_expr(mu.find_def(tree, 'Float.to_str_fixed'), mu.text_is('n_work > 0'), 'n_work >= 0'), expect='fixed.rounds-at-last-decimal'),
         Va('dollar-prefix-counts-two-digits', 'break', F, in_fn('NumberField.__init__', _dollar_two), expect='width.prefix-digit'),
@@ -223,3 +242,13 @@ def _dollar_two(fn):
             a.orelse[0].value = ast.Constant(value=2)
             return True
     return False
+
+
+def _always_lead(fn):
+    ifs = [st for st in fn.body if isinstance(st, ast.If) and norm(st.test) == 'first']
+    if len(ifs) != 1:
+        return False
+    i = fn.body.index(ifs[0])
+    fn.body[i:i + 1] = ifs[0].body
+    return True
+
